@@ -140,6 +140,13 @@ pub fn render(rng: &mut Rng, lines: &[Line]) -> String {
         }
         s.push('\n');
     }
+    // the last line need not end with a line break; line breaks may be CR LF
+    if rng.chance(1, 4) {
+        s.pop();
+    }
+    if rng.chance(1, 8) {
+        s = s.replace('\n', "\r\n");
+    }
     s
 }
 
